@@ -41,7 +41,7 @@ class Frame:
                  'data', 'pad', 'prio', 'fragment', 'promised', 'error_code',
                  'increment', 'settings', 'opaque', 'last_sid', 'debug',
                  'origin', 'field', 'offset', 'headers', 'hpack_error',
-                 'block_frames', 'table_updates', 'header_list_size')
+                 'block_frames', 'table_updates', 'header_list_size', 'src_step', 'problems')
 
     def __init__(self, type_, flags=0, sid=0, payload=b''):
         self.type = type_
@@ -70,6 +70,8 @@ class Frame:
         self.block_frames = None
         self.table_updates = None
         self.header_list_size = None
+        self.src_step = None   # (sender side) the Step that emitted this frame
+        self.problems = ()     # every (category, text) found, f.bad is one of them
 
     @property
     def name(self):
@@ -255,6 +257,20 @@ def parse_payload(f):
         f.origin = bytes(p[2:2 + olen])
         f.field = bytes(p[2 + olen:])
     # unknown types: nothing to parse
+
+
+NEEDS_STREAM = (DATA, HEADERS, PRIORITY, RST_STREAM, PUSH_PROMISE, CONTINUATION)
+NEEDS_ZERO = (SETTINGS, PING, GOAWAY)
+
+
+def all_problems(f):
+    """Every independent well-formedness problem of the frame (categories)."""
+    cats = set()
+    if f.bad is not None:
+        cats.add(f.bad[0])
+    if (f.type in NEEDS_STREAM and f.sid == 0) or (f.type in NEEDS_ZERO and f.sid != 0):
+        cats.add('proto')
+    return cats
 
 
 def parse_frame(buf, pos=0):
